@@ -64,8 +64,173 @@ const (
 	pNoStoreMaxAge
 	pMustRevalidate
 	pNoCacheMaxAge
+	pRaw // N = index into rawSets
 	nPolicyKinds
 )
+
+// rawSets: header sets the Coq model knows by number only (PRaw id): other letter case, white space,
+// quoted arguments, several Cache-Control lines.  Each entry is the list of Cache-Control header LINES.
+// Append only (the index is part of replay files).
+var rawSets = [][]string{
+	0:  {"No-Cache, max-age=3000"},
+	1:  {"max-age=3000, NO-CACHE"},
+	2:  {" no-cache , max-age=3000 "},
+	3:  {`no-cache="set-cookie", max-age=3000`},
+	4:  {"NO-STORE"},
+	5:  {"No-Store, max-age=3000"},
+	6:  {"Private"},
+	7:  {"PRIVATE, MAX-AGE=3000"},
+	8:  {"MAX-AGE=3000"},
+	9:  {"Max-Age=1000"},
+	10: {"S-MaxAge=2000"},
+	11: {"max-age=3000", "no-cache"},
+	12: {"max-age=3000", "no-store"},
+	13: {"no-store", "max-age=3000"},
+	14: {"public", "max-age=2000"},
+	15: {`max-age="3000"`},
+	16: {"max-age=3000,no-cache"},
+	17: {"max-age=3000 , No-Store"},
+	18: {"Must-Revalidate, Max-Age=2000"},
+	19: {"NO-CACHE"},
+	20: {"max-age=3000", "PRIVATE"},
+	21: {"max-age=2000,\tNo-Cache"},
+	22: {"S-MAXAGE=1000, max-age=5000"},
+	23: {"Public, Max-Age=3000"},
+}
+
+func (p Policy) rawLines() []string {
+	if p.K == pRaw && p.N >= 0 && int(p.N) < len(rawSets) {
+		return rawSets[p.N]
+	}
+	return nil
+}
+
+func (p Policy) name() string {
+	if p.K == pRaw {
+		return "raw:" + strings.Join(p.rawLines(), " | ")
+	}
+	if p.K >= 0 && p.K < len(policyNames) {
+		return policyNames[p.K]
+	}
+	return fmt.Sprintf("kind-%d", p.K)
+}
+
+// verdict: what RFC 7234 says about a header set (directive names are case-insensitive, OWS around
+// list members is ignored, arguments may be quoted, several header lines are one comma-joined list).
+// Written from the RFC, independent of the library and of the loader.
+type verdict struct {
+	forbid     bool  // no-store or private: a shared cache must not store
+	revalidate bool  // no-cache: must not be reused without validation
+	nofresh    bool  // no explicit freshness information
+	ambiguous  bool  // the RFC leaves it open: nothing is judged
+	life       int64 // freshness lifetime when there is one
+}
+
+func splitDirectives(s string) []string {
+	var out []string
+	var cur strings.Builder
+	quoted := false
+	for i := 0; i < len(s); i++ {
+		c := s[i]
+		switch {
+		case c == '"':
+			quoted = !quoted
+			cur.WriteByte(c)
+		case c == ',' && !quoted:
+			out = append(out, cur.String())
+			cur.Reset()
+		default:
+			cur.WriteByte(c)
+		}
+	}
+	return append(out, cur.String())
+}
+
+func parseCacheControl(lines []string) verdict {
+	v := verdict{nofresh: true}
+	var maxAge, sMaxAge *int64
+	for _, d := range splitDirectives(strings.Join(lines, ", ")) {
+		d = strings.Trim(d, " \t")
+		if d == "" {
+			continue
+		}
+		name, arg, hasArg := d, "", false
+		if i := strings.IndexByte(d, '='); i >= 0 {
+			name, arg, hasArg = strings.Trim(d[:i], " \t"), strings.Trim(d[i+1:], " \t"), true
+		}
+		arg = strings.Trim(arg, `"`)
+		switch strings.ToLower(name) {
+		case "no-store", "private":
+			v.forbid = true
+		case "no-cache":
+			if hasArg {
+				v.ambiguous = true // field-specific form: reuse without the listed fields is allowed
+			} else {
+				v.revalidate = true
+			}
+		case "max-age", "s-maxage":
+			var n int64
+			if _, err := fmt.Sscanf(arg, "%d", &n); err != nil || fmt.Sprint(n) != arg {
+				v.ambiguous = true
+				continue
+			}
+			if strings.ToLower(name) == "max-age" {
+				if maxAge != nil && *maxAge != n {
+					v.ambiguous = true
+				}
+				maxAge = &n
+			} else {
+				if sMaxAge != nil && *sMaxAge != n {
+					v.ambiguous = true
+				}
+				sMaxAge = &n
+			}
+		}
+	}
+	switch {
+	case sMaxAge != nil:
+		v.nofresh, v.life = false, *sMaxAge
+	case maxAge != nil:
+		v.nofresh, v.life = false, *maxAge
+	}
+	return v
+}
+
+// spec: the RFC's verdict on the header set; firstLineOnly = on the text of the first Cache-Control
+// line alone (what h.Get("Cache-Control") hands to the library).
+func (p Policy) spec(firstLineOnly bool) verdict {
+	switch p.K {
+	case pMaxAge, pSMaxAge, pPublicMaxAge, pExpiresDate, pExpires, pMustRevalidate:
+		return verdict{life: p.N}
+	case pBadDate:
+		return verdict{ambiguous: true, life: p.N}
+	case pNoStore, pPrivate:
+		return verdict{forbid: true, nofresh: true}
+	case pPrivateMaxAge, pNoStoreMaxAge:
+		return verdict{forbid: true, life: p.N}
+	case pNoCache:
+		return verdict{revalidate: true, nofresh: true}
+	case pNoCacheMaxAge:
+		return verdict{revalidate: true, life: p.N}
+	case pRaw:
+		lines := p.rawLines()
+		if firstLineOnly && len(lines) > 1 {
+			lines = lines[:1]
+		}
+		return parseCacheControl(lines)
+	}
+	return verdict{nofresh: true} // none, Expires: 0, max-age=oops
+}
+
+// laterLineMatters: the header set has several Cache-Control lines and the RFC's verdict changes when
+// only the first one is read
+func (p Policy) laterLineMatters() bool {
+	if len(p.rawLines()) < 2 {
+		return false
+	}
+	a, b := p.spec(false), p.spec(true)
+	return a.forbid != b.forbid || a.revalidate != b.revalidate || a.nofresh != b.nofresh || a.life != b.life
+}
 
 var policyNames = []string{"max-age", "s-maxage", "public,max-age", "expires+date", "expires", "no-store", "private",
 	"private,max-age", "none", "no-cache", "expires-invalid", "malformed", "bad-date", "no-store,max-age",
@@ -76,7 +241,7 @@ func (p Policy) hasN() bool {
 	case pNoStore, pPrivate, pNone, pNoCache, pExpiresInvalid, pMalformed:
 		return false
 	}
-	return true
+	return true // pRaw: N is the index of the header set
 }
 
 func (p Policy) canon() Policy {
@@ -125,30 +290,25 @@ func (p Policy) headers(now time.Time) http.Header {
 		cc(fmt.Sprintf("must-revalidate, max-age=%d", p.N))
 	case pNoCacheMaxAge:
 		cc(fmt.Sprintf("no-cache, max-age=%d", p.N))
+	case pRaw:
+		for _, l := range p.rawLines() {
+			h.Add("Cache-Control", l)
+		}
 	}
 	return h
 }
 
 // specPermits: may a shared cache reuse a 200 response with these headers without
-// contacting the origin, and for how long (RFC 7234; written from the RFC, not from
-// the library).  ambiguous = the RFC leaves it open (invalid Date), nothing is checked.
+// contacting the origin, and for how long.  ambiguous = the RFC leaves it open, nothing is checked.
 func (p Policy) specPermits() (ok bool, lifetime int64, ambiguous bool) {
-	switch p.K {
-	case pMaxAge, pSMaxAge, pPublicMaxAge, pExpiresDate, pExpires, pMustRevalidate:
-		return true, p.N, false
-	case pBadDate:
-		return true, p.N, true
+	v := p.spec(false)
+	if v.forbid || v.revalidate || v.nofresh {
+		return false, 0, v.ambiguous
 	}
-	return false, 0, false
+	return true, v.life, v.ambiguous
 }
 
-func (p Policy) forbidsStore() bool {
-	switch p.K {
-	case pNoStore, pPrivate, pPrivateMaxAge, pNoStoreMaxAge:
-		return true
-	}
-	return false
-}
+func (p Policy) forbidsStore() bool { return p.spec(false).forbid }
 
 // Op is one step of a history.
 type Op struct {
@@ -744,7 +904,7 @@ func (g *gen) checkLoad(in Input, idx int, u string, rt routeExp, o loadObs, rec
 		return
 	}
 	// no request: must be justified by an earlier response at the same key
-	var seen, good, failureOnly, nocache, forbidden, expired bool
+	var seen, good, failureOnly, nocache, forbidden, expired, laterLine bool
 	for _, r := range recv {
 		if r.key != rt.key || r.node != rt.node || r.ans.down || !r.ans.json || r.ans.v != o.v {
 			continue
@@ -758,6 +918,8 @@ func (g *gen) checkLoad(in Input, idx int, u string, rt routeExp, o loadObs, rec
 		switch {
 		case amb:
 			good = true
+		case !ok && r.ans.pol.laterLineMatters():
+			laterLine = true
 		case !ok && r.ans.pol.K == pNoCacheMaxAge:
 			nocache = true
 		case !ok:
@@ -778,6 +940,8 @@ func (g *gen) checkLoad(in Input, idx int, u string, rt routeExp, o loadObs, rec
 		g.fail("c19-stale-served", fmt.Sprintf("%s: version %d returned from the cache at t=%d after its lifetime ended", where, o.v, now), in)
 	case forbidden:
 		g.fail("c19-forbidden-reused", fmt.Sprintf("%s: version %d reused although its response forbade / did not permit caching", where, o.v), in)
+	case laterLine:
+		g.fail("c19-later-cache-control-line-ignored", fmt.Sprintf("%s: version %d reused although a second Cache-Control header line of its response forbade it", where, o.v), in)
 	case nocache:
 		g.fail("c19-nocache-maxage-reused", fmt.Sprintf("%s: version %d served with 'Cache-Control: no-cache, max-age=n' reused without revalidation", where, o.v), in)
 	case failureOnly:
@@ -799,7 +963,7 @@ func (g *gen) checkFinal(in Input, res *result, recv []request, w *world) {
 			}
 			return
 		}
-		var just, failure, forbidden, late, nocache bool
+		var just, failure, forbidden, late, nocache, laterLine bool
 		for _, r := range recv {
 			if r.key != k || r.node || r.ans.down || !r.ans.json || r.ans.v != d.v {
 				continue
@@ -809,7 +973,11 @@ func (g *gen) checkFinal(in Input, res *result, recv []request, w *world) {
 				continue
 			}
 			if r.ans.pol.forbidsStore() {
-				forbidden = true
+				if r.ans.pol.laterLineMatters() {
+					laterLine = true
+				} else {
+					forbidden = true
+				}
 				continue
 			}
 			ok, life, amb := r.ans.pol.specPermits()
@@ -819,14 +987,20 @@ func (g *gen) checkFinal(in Input, res *result, recv []request, w *world) {
 			switch {
 			case amb || d.zero || d.exp <= r.at+life:
 				just = true
+			case r.ans.pol.laterLineMatters():
+				laterLine = true
 			case r.ans.pol.K == pNoCacheMaxAge:
 				nocache = true
+			case r.ans.pol.spec(false).revalidate:
+				forbidden = true // no-cache in another spelling, stored as fresh
 			default:
 				late = true
 			}
 		}
 		switch {
 		case just:
+		case laterLine:
+			g.fail("c19-later-cache-control-line-ignored", fmt.Sprintf("cache entry %q version %d is stored as fresh until %d although a second Cache-Control header line of its response forbade it", k, d.v, d.exp), in)
 		case nocache:
 			g.fail("c19-nocache-maxage-reused", fmt.Sprintf("cache entry %q version %d, received with 'Cache-Control: no-cache, max-age=n', is stored as fresh until %d", k, d.v, d.exp), in)
 		case late:
@@ -922,6 +1096,7 @@ type ccRow struct {
 	has     bool
 	life    int64
 	nocache bool
+	spec    verdict // the RFC's verdict on the text handed to the library (first Cache-Control line)
 }
 
 // ccTable calls the real cachecontrol function the loader calls, once per header set used.
@@ -943,7 +1118,7 @@ func (g *gen) ccTable() []ccRow {
 		t := time.Now()
 		res := &http.Response{StatusCode: 200, Header: p.headers(t), Request: req}
 		reasons, exp, err := cachecontrol.CachableResponse(req, res, cachecontrol.Options{})
-		row := ccRow{p: p, store: err == nil && len(reasons) == 0}
+		row := ccRow{p: p, store: err == nil && len(reasons) == 0, spec: p.spec(true)}
 		if err == nil && !exp.IsZero() {
 			row.has, row.life = true, round100(exp.Sub(t))
 		}
@@ -959,17 +1134,17 @@ func (g *gen) ccTable() []ccRow {
 // information (the assumption of theorem C19_no_reuse_headers)
 func (g *gen) checkTable(rows []ccRow) {
 	for _, r := range rows {
-		if r.p.forbidsStore() && r.store {
-			g.rep.Fail("c19-cachecontrol-stores-forbidden", "cachecontrol accepts "+policyNames[r.p.K], map[string]any{"policy": r.p})
+		if r.spec.ambiguous {
+			continue
 		}
-		if (r.p.K == pNoCache || r.p.K == pNoCacheMaxAge) && !r.nocache {
-			g.rep.Fail("c19-cachecontrol-misses-no-cache", "cacheobject does not report no-cache for "+policyNames[r.p.K], map[string]any{"policy": r.p})
+		if r.spec.forbid && r.store {
+			g.rep.Fail("c19-cachecontrol-stores-forbidden", "cachecontrol accepts "+r.p.name(), map[string]any{"policy": r.p})
 		}
-		switch r.p.K {
-		case pNone, pNoCache, pExpiresInvalid:
-			if r.has {
-				g.rep.Fail("c19-cachecontrol-invents-lifetime", "cachecontrol gives a lifetime for "+policyNames[r.p.K], map[string]any{"policy": r.p})
-			}
+		if r.spec.revalidate && !r.nocache {
+			g.rep.Fail("c19-cachecontrol-misses-no-cache", "cacheobject does not report no-cache for "+r.p.name(), map[string]any{"policy": r.p})
+		}
+		if r.spec.nofresh && r.has && r.p.K != pExpiresDate && r.p.K != pExpires {
+			g.rep.Fail("c19-cachecontrol-invents-lifetime", "cachecontrol gives a lifetime for "+r.p.name(), map[string]any{"policy": r.p})
 		}
 	}
 }
@@ -1132,7 +1307,9 @@ func (g *gen) writeShards(rows []ccRow) error {
 		name := filepath.Join(g.cfg.OutDir, fmt.Sprintf("cases_C19_%03d.v", s))
 		var tab, hs, es []string
 		for _, r := range rows {
-			tab = append(tab, fmt.Sprintf("CCE %d %s %s %s %s %s", r.p.K, sint(r.p.N), coqgen.Bool(r.store), coqgen.Bool(r.has), sint(r.life), coqgen.Bool(r.nocache)))
+			amb := r.spec.ambiguous
+			tab = append(tab, fmt.Sprintf("CCE %d %s %s %s %s %s %s %s %s", r.p.K, sint(r.p.N), coqgen.Bool(r.store), coqgen.Bool(r.has), sint(r.life), coqgen.Bool(r.nocache),
+				coqgen.Bool(r.spec.forbid && !amb), coqgen.Bool(r.spec.revalidate && !amb), coqgen.Bool(r.spec.nofresh && !amb)))
 		}
 		for i := lo; i < hi; i++ {
 			if items[i].h != nil {
@@ -1176,6 +1353,10 @@ func (g *gen) genPolicy() *Policy {
 	kinds := []int{pMaxAge, pMaxAge, pMaxAge, pSMaxAge, pPublicMaxAge, pExpiresDate, pExpiresDate, pExpires, pNoStore, pNoStore,
 		pPrivate, pPrivateMaxAge, pNone, pNone, pNoCache, pExpiresInvalid, pMalformed, pBadDate, pNoStoreMaxAge, pMustRevalidate, pNoCacheMaxAge, pNoCacheMaxAge}
 	p := Policy{K: kinds[r.Intn(len(kinds))]}
+	if r.Intn(100) < 22 {
+		// the same directives in another spelling / on several header lines
+		return &Policy{K: pRaw, N: int64(r.Intn(len(rawSets)))}
+	}
 	if p.hasN() {
 		p.N = lifePool[r.Intn(len(lifePool))]
 		if r.Intn(10) == 0 {
@@ -1390,6 +1571,12 @@ func scripted() []Input {
 	// regression: minimal input of the defect c19-nocache-maxage-reused (fixed in /repo by da1a3b4)
 	out = append(out, Input{Kind: "history", Cfg: Cfg{Mode: 2},
 		Ops: []Op{serve(a, 1, pol(pNoCacheMaxAge, 3000)), load(a), serve(a, 2, pol(pNoCacheMaxAge, 3000)), tick(1000), load(a)}})
+	// the same with the directive in another letter case, and with no-cache / no-store on a second
+	// Cache-Control header line
+	for _, id := range []int64{0, 1, 12, 11} {
+		out = append(out, Input{Kind: "history", Cfg: Cfg{Mode: 2},
+			Ops: []Op{serve(a, 1, pol(pRaw, id)), load(a), serve(a, 2, pol(pRaw, id)), tick(1000), load(a)}})
+	}
 	i := "ipfs://QmA/schema.json"
 	gwk := "http://gw.test/ipfs/QmA/schema.json"
 	for _, c := range []Cfg{{Mode: 2, Cli: true}, {Mode: 2, GW: "http://gw.test/"}, {Mode: 2, Cli: true, GW: "http://gw.test/"}, {Mode: 2}} {
@@ -1579,7 +1766,11 @@ func (g *gen) addHistory(in Input) error {
 	li := 0
 	for _, op := range in.Ops {
 		if op.T == "serve" && op.P != nil {
-			rep.Count("policy-" + policyNames[op.P.K])
+			if op.P.K == pRaw {
+				rep.Count("policy-raw-variant")
+			} else {
+				rep.Count("policy-" + op.P.name())
+			}
 		}
 		if op.T != "load" {
 			continue
@@ -1696,14 +1887,14 @@ func Run(cfg *common.Config) (*common.Report, error) {
 	g.checkTable(rows)
 	var tab []string
 	for _, r := range rows {
-		if r.p.hasN() && r.p.N != 1000 {
+		if r.p.hasN() && r.p.N != 1000 && r.p.K != pRaw {
 			continue
 		}
 		lt := "zero-time"
 		if r.has {
 			lt = fmt.Sprintf("+%ds", r.life)
 		}
-		tab = append(tab, fmt.Sprintf("%s(n=%d): store=%v expiry=%s no-cache=%v", policyNames[r.p.K], r.p.N, r.store, lt, r.nocache))
+		tab = append(tab, fmt.Sprintf("%s(n=%d): store=%v expiry=%s no-cache=%v", r.p.name(), r.p.N, r.store, lt, r.nocache))
 	}
 	rep.Notes = append(rep.Notes, fmt.Sprintf("recorded cachecontrol.CachableResponse table, %d header sets; rows for n=1000: %s", len(rows), strings.Join(tab, "; ")))
 	rep.Notes = append(rep.Notes,
